@@ -1381,11 +1381,17 @@ class C10(Machine):
                             probe("option_call_then_other_call")
                         if p[5] != s.get("c"):
                             probe("shared_object_previous_call_by_other_client")
-                        ngrams.add("2|%s|%s|%s" % (kind, p[0], tag))
-                        if p[3] in ("interrupt", "collab_fail"):
-                            ngrams.add("F|%s|%s!%s|%s" % (kind, p[0], p[3], tag))
-                        if len(hist_obj) >= 2:
-                            ngrams.add("3|%s|%s|%s|%s" % (kind, hist_obj[-2][0], p[0], tag))
+                        # n-gram coverage over the per-kind op alphabet only (pull/close/drain
+                        # steps belong to the op that started the generator)
+                        alpha = KINDS.get(kind, (0, 0, {}))[2]
+                        opl = [q for q in hist_obj if q[0] in alpha]
+                        if opl and tag in alpha:
+                            q1 = opl[-1]
+                            ngrams.add("2|%s|%s|%s" % (kind, q1[0], tag))
+                            if p[3] in ("interrupt", "collab_fail") or q1[3] in ("interrupt", "collab_fail"):
+                                ngrams.add("F|%s|%s!%s|%s" % (kind, q1[0], p[3] or q1[3], tag))
+                            if len(opl) >= 2:
+                                ngrams.add("3|%s|%s|%s|%s" % (kind, opl[-2][0], q1[0], tag))
                     sibs = [q for q in prev_any if q[0] == kind and q[1] != oi]
                     if sibs:
                         probe("sibling_instance_of_same_kind_used_before")
